@@ -321,8 +321,8 @@ Section Shift.
     cbn [reff]. rewrite IH. reflexivity.
   Qed.
 
-  Lemma rp_cast t s x : cast_il_exec t s (rpure x) = rpure (cast_il_exec t s x).
-  Proof. unfold cast_il_exec. destruct (vt_sg t && vt_sg s); reflexivity. Qed.
+  Lemma rp_cast t s nn x : cast_il_exec t s nn (rpure x) = rpure (cast_il_exec t s nn x).
+  Proof. unfold cast_il_exec. destruct ((vt_sg t && vt_sg s) || (vt_sg s && (vt_w s <? vt_w t)%N && negb nn)); reflexivity. Qed.
   Ltac ifs := repeat match goal with |- context [if ?c then _ else _] => destruct c end; try reflexivity.
   Lemma rp_bitop op ty a b : bitop_il_exec op ty (rpure a) (rpure b) = rpure (bitop_il_exec op ty a b).
   Proof. unfold bitop_il_exec. ifs. Qed.
@@ -339,6 +339,8 @@ Section Shift.
   Proof. unfold is_boolop, rpval. cbn [pv_kind]. destruct (pv_kind p); reflexivity. Qed.
   Lemma cond_of_ren p : cond_of cfg (rpval p) = rpure (cond_of cfg p).
   Proof. unfold cond_of. rewrite is_boolop_ren. unfold rd, rpval. cbn [pv_term]. apply rp_cond_wrap. Qed.
+  Lemma nonneg_const_ren p : nonneg_const (rpval p) = nonneg_const p.
+  Proof. unfold nonneg_const, rpval. cbn [pv_kind]. destruct (pv_kind p); reflexivity. Qed.
   Lemma fold_cond_ren p : fold_cond (rpval p) = fold_cond p.
   Proof. unfold fold_cond, rpval. cbn [pv_kind]. destruct (pv_kind p); reflexivity. Qed.
 
@@ -391,7 +393,7 @@ Section Shift.
       destruct i; cbn [gitem] in *; unfold gleff in *; try constructor; destruct (le_empty _); try constructor; intuition.
   Qed.
 
-  Hint Rewrite has_tree_ren item_tmps_ren flat_map_item_tmps_ren is_boolop_ren cond_of_ren fold_cond_ren rp_cast rp_bitop rp_arith rp_cmp rp_cond_wrap rp_boolop map_app : hren.
+  Hint Rewrite has_tree_ren item_tmps_ren flat_map_item_tmps_ren is_boolop_ren cond_of_ren fold_cond_ren nonneg_const_ren rp_cast rp_bitop rp_arith rp_cmp rp_cond_wrap rp_boolop map_app : hren.
 
   (* ------------------------------------------------------------------ tactics *)
   Ltac rsimp :=
